@@ -29,7 +29,8 @@ DOCUMENTED = ("MemoryLocationNotWriteable", "MemoryWriteFailure", "ResponseError
 
 def plan(tier, seed):
     reps = 1 if tier == "quick" else 8
-    return [{"bank": b, "rep": rep, "datas": 3 if tier == "quick" else 6} for b in BANKS for rep in range(reps)]
+    return [{"bank": b, "rep": rep, "datas": 3 if tier == "quick" else 6} for b in BANKS for rep in range(reps)] + \
+        [{"bank": "synthetic"}]
 
 
 def _mods():
@@ -262,6 +263,63 @@ def run_bank(desc, tier, seed, res):
     res.sample({"bank": bankkey, "values": [v[0] for v in values][:5], "writable": sum(1 for v in values if v[2].writable)})
 
 
+def run_synthetic(seed, res):
+    """User-declared values (public API) mixing access classes: any read-only location => refused before anything is sent."""
+    import itertools
+    import dali.memory.location as loc
+    from dali.exceptions import MemoryValueNotWriteable
+    from dali import address
+    from models.membank import Bank, RO, RW, RWL
+    from models.gear102 import Gear
+    from models.bus import Bus
+    T = loc.MemoryType
+    kinds = {"ROM": (T.ROM, RO), "RAM_RO": (T.RAM_RO, RO), "NVM_RO": (T.NVM_RO, RO), "RAM_RW": (T.RAM_RW, RW),
+             "NVM_RW": (T.NVM_RW, RW), "NVM_RW_L": (T.NVM_RW_L, RWL)}
+    bank_obj = loc.MemoryBank(100, 0x7F, has_lock=True)
+    nxt = [3]
+    n = 0
+    for width in (1, 2, 3):
+        for combo in itertools.product(kinds, repeat=width):
+            first = nxt[0]
+            nxt[0] += width
+            if nxt[0] > 0x7F:
+                bank_obj = loc.MemoryBank(100, 0x7F, has_lock=True)
+                first, nxt[0] = 3, 3 + width
+            locs = tuple(loc.MemoryLocation(address=first + k, type_=kinds[c][0]) for k, c in enumerate(combo))
+            cls = type(f"Synthetic{n}", (loc.NumericValue,), {"bank": bank_obj, "locations": locs})
+            n += 1
+            acc = {first + k: kinds[c][1] for k, c in enumerate(combo)}
+            image = [0x11] * 255
+            image[0] = 0x7F
+            image[2] = 0xFF
+            bank = Bank(100, image, 0x7F, access=acc)
+            unit = Gear(short=4, banks={100: bank})
+            bus = Bus([unit], bound=200)
+            raw = bytes(range(0x80, 0x80 + width))
+            before = list(bank.image)
+            res.evaluations += 1
+            res.distinct += 1
+            out = attempt(bus, cls.write_raw(address.GearShort(4), raw))
+            wit = {"value": "synthetic", "access": list(combo)}
+            if any(kinds[c][1] == RO for c in combo):
+                res.hit("refused_readonly")
+                if not (out[0] == "exc" and isinstance(out[1], MemoryValueNotWriteable)) or bus.log:
+                    res.violation("C10/readonly-value-not-refused", f"value with access {combo}: write_raw gave {out[0]} "
+                                  f"({type(out[1]).__name__ if out[0] == 'exc' else ''}), frames sent {len(bus.log)}", wit)
+            else:
+                res.hit("writes_ok")
+                want = list(before)
+                for k, b in enumerate(raw):
+                    want[first + k] = b
+                now = list(bank.image)
+                now[2] = want[2] = None
+                if out[0] != "ok" or now != want:
+                    res.violation("C10/write/memory-differs", f"value with access {combo}: {out[0]}; memory not exactly the requested bytes", wit)
+                elif bank.image[2] == 0x55:
+                    res.violation("C10/write/left-unlocked", f"value with access {combo}: bank left unlocked", wit)
+    res.sample({"synthetic_values": n, "access_combinations": "all of width 1..3 over 6 access classes"})
+
+
 def run_shard(desc, tier, seed):
     res = Result()
     if "replay" in desc:
@@ -272,5 +330,8 @@ def run_shard(desc, tier, seed):
                     res.violation(v["key"], v["what"], v["witness"])
             res.evaluations += r2.evaluations
         return res
-    run_bank(desc, tier, seed, res)
+    if desc["bank"] == "synthetic":
+        run_synthetic(seed, res)
+    else:
+        run_bank(desc, tier, seed, res)
     return res
